@@ -211,11 +211,14 @@ class Ctx:
         self.evaluations += 1
         if len(self.samples) < 2:
             self.samples.append({"kind": kind, "case": case})
+        # a check module may declare CASE_SCALE = {kind: factor} for kinds whose single case is itself a long sweep
+        # (e.g. one case = every interval of a zone through year 9999): watchdog and call budget scale with it
+        scale = getattr(self.module, "CASE_SCALE", {}).get(kind, 1)
         try:
-            with time_limit():
+            with time_limit(CASE_TIMEOUT_S * scale):
                 info = self.module.eval_case(kind, case)
         except CaseTimeout:
-            return self.confirm_slow_case(kind, case)
+            return self.confirm_slow_case(kind, case, scale)
         except InvalidCase:
             self.labels["invalid-case"] += 1
             return True
@@ -248,14 +251,14 @@ class Ctx:
         and every further lookup would cost a watchdog period, so the task stops exploring."""
         return self.nonterminating >= 2
 
-    def confirm_slow_case(self, kind: str, case: Any) -> bool:
+    def confirm_slow_case(self, kind: str, case: Any, scale: int = 1) -> bool:
         """A case hit the wall-clock watchdog: decide deterministically by re-running it under a call budget."""
         self.labels["watchdog-fired"] += 1
         try:
-            run_with_call_budget(lambda: self.module.eval_case(kind, case))
+            run_with_call_budget(lambda: self.module.eval_case(kind, case), CALL_BUDGET * scale)
         except CallBudgetExceeded:
             self.nonterminating += 1
-            self._record(f"{self.prop}/{kind}/nonterminating", kind, case, f"more than {CALL_BUDGET} Python calls (typical: thousands) - the operation does not terminate")
+            self._record(f"{self.prop}/{kind}/nonterminating", kind, case, f"more than {CALL_BUDGET * scale} Python calls (typical: {'thousands' if scale == 1 else 'a few million for this sweep'}) - the operation does not terminate")
             return False
         except InvalidCase:
             return True
